@@ -173,16 +173,56 @@ RE_CHECK = re.compile(r'^Check (\d+): (.+)\n\t - Status: (\w+)\n\t - Description
 RE_PLAY = re.compile(r'Concrete playback unit test for `([^`]+)`:\n```\n(.*?)\n```', re.S)
 
 
-def kani_cmd(h):
+def kani_cmd(h, tier):
     c = CRATES[h.crate]
     cmd = ['cargo', 'kani'] + c['args'] + ['--target-dir', os.path.join(TARGET, h.crate),
                                            '-Z', 'stubbing', '-Z', 'concrete-playback', '--concrete-playback=print',
-                                           '--harness', '%s::%s' % (c['mod'], h.name), '--exact']
+                                           '--harness', '%s::%s' % (c['mod'], h.name), '--exact'] + h.kani_flags(tier)
     return cmd, c['cwd']
 
 
+def resolve_unwindset(h, tier):
+    """per-loop unwind bounds: codegen only, list the loops of the harness' goto binary, match the
+    registry's patterns; returns (extra kani args, description) or (None, reason)"""
+    import glob
+    cmd, cwd = kani_cmd(h, tier)
+    r = subprocess.run(cmd + ['--only-codegen'], cwd=cwd, env=base_env(), capture_output=True, text=True)
+    pat = os.path.join(TARGET, h.crate, 'kani', '*', 'debug', 'build', '*', '*', 'out', '*%d%s.out' % (len(h.name), h.name))
+    outs = sorted(glob.glob(pat), key=os.path.getmtime)
+    if r.returncode != 0 or not outs:
+        return None, 'codegen failed or goto binary not found:\n' + (r.stdout + r.stderr)[-3000:]
+    sl = subprocess.run(['cbmc', '--show-loops', outs[-1]], capture_output=True, text=True)
+    loops = re.findall(r'^Loop (\S+):$', sl.stdout, re.M)
+    sets = []
+    used = set()
+    for loop in loops:
+        for i, (rx, n) in enumerate(h.unwindset):
+            if re.search(rx, loop):
+                sets.append('%s:%d' % (loop, n))
+                used.add(i)
+                break
+    missing = [h.unwindset[i][0] for i in range(len(h.unwindset)) if i not in used]
+    # a pattern that matches nothing is not fatal: those loops keep the #[kani::unwind] default and the
+    # unwinding assertions (always on) report a bound that is too small as inconclusive
+    if not sets:
+        return [], ''
+    return ['--cbmc-args', '--unwindset', ','.join(sets)], '; '.join('%s -> %d' % (rx, n) for rx, n in h.unwindset)
+
+
 def run_harness(h, tier, timeout_scale=1.0):
-    cmd, cwd = kani_cmd(h)
+    cmd, cwd = kani_cmd(h, tier)
+    if h.unwindset:
+        extra, why = resolve_unwindset(h, tier)
+        if extra is None:
+            logp = os.path.join(LOGS, '%s.%s.log' % (h.name, tier))
+            with open(logp, 'w') as f:
+                f.write(why)
+            res = parse_log('')
+            res.update(name=h.name, rc=2, timed_out=False, wall_s=0.0, log=logp, timeout=0)
+            return res
+        if '-Z' not in cmd[cmd.index('--exact'):]:
+            cmd += ['-Z', 'unstable-options']
+        cmd += extra
     timeout = int(h.timeout * timeout_scale)
     logp = os.path.join(LOGS, '%s.%s.log' % (h.name, tier))
     MEM.acquire(h.mem_gb)
@@ -551,7 +591,7 @@ def write_evidence(pid, tier, seed, results, samples, wall, meta, inconclusive=(
             by[c['status']] = by.get(c['status'], 0) + 1
         hv.append({
             'harness': h.name, 'crate': h.crate, 'verdict': r['verdict'], 'timed_out': r['timed_out'],
-            'functions_encoded': h.funcs, 'bound': h.bound, 'unwind': h.unwind,
+            'functions_encoded': h.funcs, 'bound': h.bound, 'unwind': h.unwind, 'kani_flags': h.kani_flags(tier),
             'stubs': h.stub_docs(), 'stubs_applied_by_kani': r['stubs_applied'],
             'checks_by_status': by, 'sat_calls': r['sat_calls'], 'solver_time_s': r['solver_s'], 'symex_time_s': r['symex_s'],
             'sat_vars': r['sat_vars'], 'sat_clauses': r['sat_clauses'], 'wall_s': r['wall_s'],
